@@ -4,10 +4,10 @@ CONSTANTS
   MaxEmptyReads = 100
   NilCloseGuarded = TRUE
   MaxContent = 3
-  MaxChunks = 4
+  MaxChunks = 3
   MaxChunk = 3
   ReadSizes = {0, 1, 2, 4096}
-  MaxHist = 5
+  MaxHist = 4
   MaxConds = 1
   OneShots = {"err"}
   CloseErrs = {FALSE, TRUE}
